@@ -667,6 +667,10 @@ func (in *Inst) havocItem(mi ModItem, env *SpecEnv, oldSt, st *State) {
 	switch mi.Kind {
 	case modGhost:
 		in.havocGhost(mi.Name, st)
+	case modMem:
+		nm := e.freshConst("Mem", e.compSort("Mem"))
+		e.memVers = append(e.memVers, nm)
+		st.set("Mem", nm)
 	case modBytes, modSpare:
 		pre := env.fork()
 		pre.st = oldSt
